@@ -805,6 +805,9 @@ pub fn gen_c18(run: &mut Run, seed: u64, thorough: bool) {
             (b"", b"EMP", 7, "empty-name"),
             (b"NoSym", b"", 7, "empty-symbol"),
             (&[0xff, 0xfe], b"BAD", 7, "non-utf8-name"),
+            (b"Padded\0\0", b"PAD\0", 7, "trailing-nul"),
+            (b"\0", b"\0\0", 7, "nul-only"),
+            (b" Spaced ", b"SP\n", 7, "surrounding-whitespace"),
         ];
         let mut customs: Vec<(Addr, &str)> = vec![];
         for (k, (name, sym, dec, label)) in shapes.iter().enumerate() {
